@@ -100,6 +100,7 @@ func subMs(r *rand.Rand) time.Duration {
 type MinterConfig struct {
 	Params   minttypes.Params    // Minters listed in a shuffled order (validation sorts by sequence id)
 	Sorted   []*minttypes.Minter // the same minters in ascending sequence-id order
+	FirstID  uint32              // sequence id of the first period (ids need not start at 1)
 	Schedule model.Schedule
 	Desc     []string
 }
@@ -198,6 +199,14 @@ func Minters(r *rand.Rand, denom string, maxExp int) MinterConfig {
 		mc.Schedule.Periods = append(mc.Schedule.Periods, p)
 		if end != nil {
 			cur = *end
+		}
+	}
+	// the rule for ids is "first > 0, then consecutive": one configuration in eight does not start at 1
+	mc.FirstID = 1
+	if r.Intn(8) == 0 {
+		mc.FirstID = uint32(2 + r.Intn(5))
+		for _, m := range mc.Params.Minters {
+			m.SequenceId += mc.FirstID - 1
 		}
 	}
 	mc.Sorted = append([]*minttypes.Minter{}, mc.Params.Minters...)
